@@ -33,5 +33,11 @@ let handle l =
   | ["safe"; s] -> bool_tok (escape_safe (str_of_tok s))
   | ["esco"; s] -> (match escape_opt (str_of_tok s) with Some r -> tok_of_str r | None -> "NONE")
   | ["unesco"; s] -> (match unescape_opt (str_of_tok s) with Some r -> tok_of_str r | None -> "NONE")
+  | ["nq"; s] -> bool_tok (needs_quotes (str_of_tok s))
+  | ["emitstr"; f; s] -> tok_of_str (emit_str (tok_bool f) (str_of_tok s))
+  | ["aqk"; s] -> bool_tok (always_quote_key (str_of_tok s))
+  | ["pats"; s] -> let x = str_of_tok s in
+      String.concat "" (List.map bool_tok [match_identifier x; match_annotation x; match_expression x; match_variable x; reserved_prefix x])
+  | ["sclass"; f; s] -> string_of_int (int_of_n (scalar_class (tok_bool f) (str_of_tok s)))
   | _ -> "!badcmd"
 let () = main_loop handle
